@@ -1,3 +1,5 @@
+import Orca.Gen.ApiOutline
+import Orca.Model.ApiOutlineSpec
 import Orca.Lemmas.Types
 import Orca.Lemmas.Lower
 import Orca.Gen.HashSites
@@ -63,3 +65,9 @@ theorem c04_resolve_order_independent (last : Nat) (b : List Instr) (i : Nat) (x
       simp only [emitFrom, ih]
 
 end Orca.C04
+
+/-- **The tie to the source (regenerated on every run).** The same two functions seen from C04: were equality and hash to look at different things, whether `add_type` finds an equal entry would depend on the hash seed of the run, and two runs would emit different type sections. -/
+theorem c04_type_key_code_reviewed :
+    Orca.Gen.ApiOutline.types_hash = Orca.ApiOutlineSpec.types_hash
+    ∧ Orca.Gen.ApiOutline.types_eq = Orca.ApiOutlineSpec.types_eq :=
+  ⟨rfl, rfl⟩
